@@ -12,6 +12,7 @@ import (
 
 	"github.com/arnodel/golua/lib/packagelib"
 	rt "github.com/arnodel/golua/runtime"
+	"github.com/arnodel/golua/safeio"
 )
 
 // BufferedStdFiles sets wether std files should be buffered
@@ -388,6 +389,11 @@ func popen(t *rt.Thread, c *rt.GoCont) (rt.Cont, error) {
 		if err != nil {
 			return nil, err
 		}
+	}
+
+	if t.RequiredFlags()&rt.ComplyIoSafe != 0 {
+		// Starting a process is access to the outside world.
+		return nil, safeio.ErrNotAllowed
 	}
 
 	var cmdArgs []string
